@@ -22,6 +22,9 @@ Python                                   | here
                                          |   priority; WHICH of several entries of equal priority is not observable in the statement.
 `sorted([(d1, c1), (d2, c2)])`           | `sorted2`: lexicographic order of Python tuples, stable
 `float("inf")`                           | `pinf`
+`np.median(xs)`                          | `median xs` (`Model/KDTree.lean`: exact, mean of the two middle values for an even count)
+`np.random.choice(xs, n, replace=False)` | `sample xs n`: a PARAMETER - any function (no assumption on what numpy draws)
+`np.random.choice(xs, 1)[0]`             | `pick xs`: a PARAMETER - any function
 -/
 namespace Mouette.KD
 
@@ -40,6 +43,11 @@ end Mouette.KD
 
 namespace Mouette.KDS
 open Mouette.KD Mouette.AABB Mouette.AABB.EQ
+
+/-- `KDTree.BuildStrategy` -/
+inductive Strategy where
+  | balanced | fast | random
+deriving DecidableEq, Repr
 
 /-- the attributes `__init__` and `_new_leaf` write: `self.nodes`, `self._nid` -/
 structure BSt where
